@@ -462,7 +462,7 @@ def fam_args_all(sess):
                 bad = Str(bad_args[ctx.concretize(ctx.fresh_bv('bad', 8), range(len(bad_args)))])
                 if pos == 0:
                     return call_get_value(ctx, prog, fname, bad, [])
-                first = Str(['2', 'abc'][ctx.concretize(ctx.fresh_bv('first', 8), range(2))])
+                first = Str(['2', 'abc', '5'][ctx.concretize(ctx.fresh_bv('first', 8), range(3))])      # '5' also occurs among the second arguments: equal bounds
                 if pos == 1:
                     return call_get_value(ctx, prog, fname, first, [bad])
                 return call_get_value(ctx, prog, fname, first, [Str('1'), bad])
@@ -477,6 +477,7 @@ def fam_args_all(sess):
                         for a in bad_args:
                             lit = a if a and re.fullmatch(r'[-0-9.]+', a) else "'%s'" % a
                             qs.append('%s(%s)' % (sql, lit) if pos == 0 else ("%s(2, %s)" % (sql, lit) if pos == 1 else "%s(2, 1, %s)" % (sql, lit)))
+                            qs.append("%s(5, %s)" % (sql, lit) if pos == 1 else "%s(5, 1, %s)" % (sql, lit)) if pos else None
                             qs.append("%s('abc', %s)" % (sql, lit) if pos < 2 else "%s('abc', 1, %s)" % (sql, lit))
                         sess.violated('args_all %s' % fname, 'args/panic/' + fname, out[1][:160], {'function': fname, 'position': pos}, cli_crash_replay(qs), fam)
                 elif out[0] == 'unmodelled':
